@@ -18,6 +18,12 @@ import GrinVerif.Model.DecSer
     codec run <ver> <[frag,frag,…]>      => [ev;ev;…;end:<E>:<bytes_read>[:<maxreq>]]   (C19, real `Codec`)
     codec hs accept|initiate <genesis> <stream> => ok <version> | err <E>              (C19, real `Handshake`)
     codec hs self                        => err PeerWithSelf
+    codec timed <ver> <[ms:frag,ms:frag,…]> => [ev;…;pongs:<n>;closed:<0|1>]   (C19, real `conn::listen` reader thread:
+                                          fragments written after real pauses of `ms` milliseconds; model = `runT`)
+    codec ring new                       => ok            (C19, ONE long-lived real `Handshake`)
+    codec ring push <nonce>              => <outcome of that `initiate()`>   (nonce read off the wire)
+    codec ring self <nonce>              => err PeerWithSelf   (the same `Handshake` dials its own `accept`)
+    codec ring replay <nonce>            => err PeerWithSelf | ok <version>  (a `Hand` replaying an older nonce)
 
 `canon` = the decoded value re-encoded (`-` where the model carries no value); `maxreq` = largest single
 allocation request the real decoder made, checked against the model's requested allocation
@@ -27,6 +33,8 @@ open GV GV.Drv GV.Ser GV.Dec GV.Msg GV.Codec GV.DecSer
 
 structure St where
   dummy : Unit := ()
+  /-- the nonce ring of the long-lived `Handshake` of the `ring` lines -/
+  ring : List Nat := []
 
 def realKey (b : Bytes) : Nat := ofBE (h256 b)
 
@@ -269,6 +277,88 @@ def runEvents (env : Env DB DH) : Nat → Codec DH → List Bytes → List Strin
     | .panic _ => ["panic"]
     | .hang => ["hang"]
 
+/-! ### C19: the reader thread over a stream with real pauses (`runT`) -/
+
+abbrev DBT := Body Bytes
+
+/-- the large payload bodies are opaque byte strings here (their decoders belong to C10/C11) -/
+def opaquePayload : Payload Bytes := fun _ bs => .ok bs [] 0
+
+def drvEnvT (ver : Nat) : Env DBT DH :=
+  { net := netAutomatedTesting
+    hdrMax := headerSizeMax GV.Gen.AUTOMATED_TESTING_PROOF_SIZE
+    hdrMem := 400
+    decBody := fun t raw => match decBody opaquePayload .buf t raw with
+      | .ok v _ _ => .ok v
+      | .err e _ => .error e
+      | .panic _ _ => .error .corrupted
+    decItem := decBlockHeader (mkCfg ver) }
+
+def drvAttachT : Message DBT DH → Option Nat
+  | .body _ (.txHashSetArchive _ _ bytes) => some bytes
+  | _ => none
+
+/-- `[ms:hex,ms:hex,…]` -/
+def parseSched (s : String) : Option Sched :=
+  let inner := (s.drop 1).dropEnd 1 |>.toString
+  if inner.isEmpty then some [] else
+  (inner.splitOn ",").mapM fun item =>
+    match item.splitOn ":" with
+    | [d, h] => match d.toNat?, parseHex h with
+      | some d, some b => if b.isEmpty then none else some (d, b)
+      | _, _ => none
+    | _ => none
+
+/-- what the `MessageHandler` of the harness sees of the `runT` loop (same recursion as `Codec.runT`):
+`Unknown` messages are swallowed by `conn.rs`, attachment bytes go to the file (summed at the end),
+a `Ping` is answered with a `Pong`; a read that timed out is retried.  Ends with the number of
+`Pong`s due and whether the reader thread closed the connection before the stream ended. -/
+def runEventsT (env : Env DBT DH) : Nat → Codec DH → TStream → Bytes → Nat → List String
+  | 0, _, _, _, _ => ["hang"]
+  | fuel+1, c, s, att, pongs =>
+    let o := readT env c s
+    match o.res with
+    | .msg m =>
+      let c' := match drvAttachT m with
+        | some size => expectAttachment o.codec size
+        | none => some o.codec
+      match c' with
+      | none => ["panic"]
+      | some c' =>
+        match m with
+        | .unknown _ => runEventsT env fuel c' o.sock att pongs
+        | .body t v =>
+          s!"body:{t}:{toHex (encBody id v)}" ::
+            runEventsT env fuel c' o.sock att (if t = GV.Gen.Msg.T_Ping then pongs + 1 else pongs)
+        | .headers hs rem =>
+          s!"headers:{hs.length}:{rem}:{toHex (hs.map (encBlockHeader GV.Gen.AUTOMATED_TESTING_PROOF_SIZE .full)).flatten}" ::
+            runEventsT env fuel c' o.sock att pongs
+        | .attachment rd left bytes =>
+          let att' := att ++ bytes
+          if left = 0 then
+            s!"att:{rd}:{left}" :: s!"attsum:{att'.length}:{checksumLoop att' 0 0}" :: runEventsT env fuel c' o.sock [] pongs
+          else s!"att:{rd}:{left}" :: runEventsT env fuel c' o.sock att' pongs
+    | .err e =>
+      if e = .timedOut then runEventsT env fuel o.codec o.sock att pongs
+      else
+        -- end of stream while idle: the connection is still up; anything else: the reader thread left
+        let closed := if e = .conn ∧ o.sock.isEmpty ∧ o.codec.state = .none ∧ o.codec.buffer.isEmpty then 0 else 1
+        [s!"pongs:{pongs}", s!"closed:{closed}"]
+    | .panic _ => ["panic"]
+    | .hang => ["hang"]
+
+def LOCAL_PROTOCOL_VERSION' : Nat := 1000
+
+/-- the decision of `accept` for a `Hand` with our genesis carrying `nonce`, against the ring -/
+def ringDecision (ring : List Nat) (nonce : Nat) : String :=
+  let h : Hand := { version := 1000, capabilities := 0, nonce := nonce, genesis := [1], totalDifficulty := 0,
+                    senderAddr := .v4 [0, 0, 0, 0] 0, receiverAddr := .v4 [0, 0, 0, 0] 0, userAgent := [] }
+  match acceptDecision [1] LOCAL_PROTOCOL_VERSION' ring false h with
+  | .ok v => s!"ok {v}"
+  | .error .genesisMismatch => "err GenesisMismatch"
+  | .error .peerWithSelf => "err PeerWithSelf"
+  | .error .connectionClose => "err ConnectionClose"
+
 def showHs : Except HsErr Nat → String
   | .ok v => s!"ok {v}"
   | .error .genesisMismatch => "err GenesisMismatch"
@@ -306,6 +396,32 @@ def handle (st : St) (args : List String) (impl : String) : St × Verdict :=
         | some m => if m ≤ 65536 then (st, .ok) else (st, .fail s!"{model} with at most 65536 bytes requested")
         | none => (st, .ok)
     | _, _ => (st, .unknown)
+  | ["timed", ver, sched] =>
+    match nat? ver, parseSched sched with
+    | some ver, some sc =>
+      let evs := runEventsT (drvEnvT ver) 1000000 Codec.new (tagSched sc) [] 0
+      (st, cmpModel s!"[{";".intercalate evs}]" impl)
+    | _, _ => (st, .unknown)
+  | ["ring", "new"] => ({ st with ring := [] }, cmpModel "ok" impl)
+  | ["ring", "push", nonce] =>
+    match nat? nonce with
+    | some n => ({ st with ring := pushNonce st.ring n }, .ok)
+    | none => (st, .unknown)
+  | ["ring", "self", nonce] =>
+    -- `initiate` draws the nonce (`next_nonce`), the `Hand` carrying it arrives at our own `accept`:
+    -- the property fixes the answer
+    match nat? nonce with
+    | some n =>
+      let ring := pushNonce st.ring n
+      let m := ringDecision ring n
+      if m ≠ "err PeerWithSelf" then
+        ({ st with ring := ring }, .diff s!"{m} (the model itself contradicts self_connect_refused)")
+      else ({ st with ring := ring }, cmpSpec m impl)
+    | none => (st, .unknown)
+  | ["ring", "replay", nonce] =>
+    match nat? nonce with
+    | some n => (st, cmpModel (ringDecision st.ring n) impl)
+    | none => (st, .unknown)
   | ["hs", "self"] =>
     let h : Hand := { version := 1000, capabilities := 0, nonce := 42, genesis := [1], totalDifficulty := 0,
                       senderAddr := .v4 [0, 0, 0, 0] 0, receiverAddr := .v4 [0, 0, 0, 0] 0, userAgent := [] }
